@@ -75,3 +75,9 @@ Lemma register_tunnel_shape_known : RegisterTunnelShapeFound = true.
 Proof. reflexivity. Qed.
 Lemma mapping_onclosed_shape_known : MappingOnClosedFound = true.
 Proof. reflexivity. Qed.
+
+(* round 9: the flush sites of CopyWithControl and handleConnection's releaseSlot were found and classified *)
+Lemma copy_flush_shape_known : CopyFlushShapeFound = true.
+Proof. reflexivity. Qed.
+Lemma release_slot_shape_known : ReleaseSlotShapeFound = true.
+Proof. reflexivity. Qed.
